@@ -108,6 +108,13 @@ def run(rep, tier, seed):
                      '(out-of-bounds, uninitialised read, null, division by zero, over-wide shift, mismatched/double free) of the bounded-shape tiers of '
                      'the transforms, the sponge and the Merkle builders with exact-size buffers')
     run_rules(rep, ('alloc', 'shift', 'align'))
+    # call histories: the memory-safety sinks met while closing the state space of one transform object under the call alphabet
+    # of C19 (rows and columns vary between calls: a scratch buffer that is kept between calls must fit every later call)
+    from . import c19
+    ns_, nt_ = c19.explore(rep, tier, (16,) if tier == 'quick' else (16, 64), rule='history-safety', sinks_only=True)
+    rep.cov['history_states'] = ns_
+    rep.cov['history_transitions'] = nt_
+    rep.ok('history-safety:closure', 'history-safety', 'src/ntt_goldilocks.cpp', '%d object states x call alphabet = %d calls: every memory-safety sink met is reported above' % (ns_, nt_))
     rules.rule_shift(rep, r'^(PoseidonGoldilocks::|Goldilocks::parcpy|Goldilocks::parSetZero|Goldilocks::exp|Goldilocks3::)', floor=0, label='hash / helper units')
     rules.rule_narrow(rep)
     # strided / indexed operands have no extent of their own: "reads only the declared input, writes only the declared output"
